@@ -358,7 +358,6 @@ fire('shape-grammar-short-with-item', ['C13', 'C14'], ['GR-10'], 'a grammar gain
      (G('312'), "\nwith_item: test ['as' expr]\n", "\nwith_item: test ['as' expr] | test '->'\n"))
 silent('shape-for-testlist-alias', ['C14'], 'ForStmt.get_testlist through a local',
        (PYTREE, "        return self.children[3]\n", "        testlist = self.children[3]\n        return testlist\n"))
-
 VARIANTS = [v for v in VARIANTS if v is not None]
 
 # ---------------------------------------------------------------------------------------------------------
@@ -619,5 +618,43 @@ fire('shape-funcdef-parameters-by-position', ['C05', 'C14'], ['GR-10b'], 'Functi
      (PYTREE, "        parameters = self._find_parameters()\n        parameters_children = parameters.children[1:-1]", "        parameters = self.children[2]\n        parameters_children = parameters.children[1:-1]"))
 silent('shape-funcdef-name-by-position', ['C05', 'C14'], 'Function.name through a local (children[1] is NAME in every version)',
        (PYTREE, "        return self.children[1]  # First token after `def`", "        name_leaf = self.children[1]  # First token after `def`\n        return name_leaf"))
+
+FILEIO = 'parso/file_io.py'
+fire('rx5d-text-mode-read', ['C15'], ['RX-5d'], 'FileIO.read decodes as UTF-8 itself when it can (rt8-C15)',
+     (FILEIO, "        with open(self.path, 'rb') as f:\n            return f.read()",
+      "        try:\n            with open(self.path, encoding='utf-8', newline='') as f:\n                return f.read()\n        except UnicodeDecodeError:\n            with open(self.path, 'rb') as f:\n                return f.read()"))
+fire('rx5d-decode-before-decoder', ['C15'], ['RX-5d'], 'the parse entry point decodes bytes itself before calling the decoder',
+     (GRAMMAR, "        code = python_bytes_to_unicode(code)", "        if isinstance(code, bytes):\n            code = code.decode('utf-8', 'replace')\n        code = python_bytes_to_unicode(code)"))
+silent('rx5d-read-bytes', ['C15'], 'FileIO.read through pathlib read_bytes / mode keyword',
+       (FILEIO, "        with open(self.path, 'rb') as f:\n            return f.read()", "        with open(self.path, mode='rb') as f:\n            data = f.read()\n        return data"))
+
+fire('dim1-level-as-child-index', ['C14'], ['DIM-1'], 'get_from_names skips 1 + self.level children (level counts dots, `...` is one child) (rt8-C14)',
+     (PYTREE, "        for n in self.children[1:]:\n            if n not in ('.', '...'):\n                break\n        if n.type == 'dotted_name':  # from x.y import",
+      "        n = self.children[1 + self.level]\n        if n.type == 'dotted_name':  # from x.y import"))
+fire('dim1-prefix-length-as-child-index', ['C14'], ['DIM-1'], 'a child picked by the length of a leaf value',
+     (PYTREE, "        return self.children[1]  # First token after `def`", "        return self.children[len(self.children[0].value) - 2]  # First token after `def`"))
+silent('dim1-position-counter', ['C14'], 'get_from_names counts the dot children and indexes with the count',
+       (PYTREE, "        for n in self.children[1:]:\n            if n not in ('.', '...'):\n                break\n        if n.type == 'dotted_name':  # from x.y import",
+        "        skip = 1\n        for n in self.children[1:]:\n            if n not in ('.', '...'):\n                break\n            skip += 1\n        n = self.children[skip]\n        if n.type == 'dotted_name':  # from x.y import"))
+
+_D2_OLD = """        if new_nodes:
+            if not _ends_with_newline(new_nodes[-1].get_last_leaf()) and not had_valid_suite_last:
+                p = new_nodes[-1].get_next_leaf().prefix
+                # We are not allowed to remove the newline at the end of the
+                # line, otherwise it's going to be missing. This happens e.g.
+                # if a bracket is around before that moves newlines to
+                # prefixes.
+                new_prefix = split_lines(p, keepends=True)[0]
+
+"""
+fire('diff2-newline-question-only-without-suite', ['C04'], ['DIFF-2'], 'the pending-newline step becomes an elif of the suite branch: skipped when the last class/def is dropped (rt8-C04)',
+     (DIFF, "                had_valid_suite_last = True\n\n        if new_nodes:\n", "                had_valid_suite_last = True\n        elif not _ends_with_newline(last_node.get_last_leaf()):\n            p = last_node.get_next_leaf().prefix\n            new_prefix = split_lines(p, keepends=True)[0]\n\n        if new_nodes:\n"),
+     (DIFF, _D2_OLD, "        if new_nodes:\n"))
+fire('diff2-stale-last-node', ['C04'], ['DIFF-2'], 'the newline question is asked of the node that was last before the incomplete suite was dropped',
+     (DIFF, "            if not _ends_with_newline(new_nodes[-1].get_last_leaf()) and not had_valid_suite_last:\n                p = new_nodes[-1].get_next_leaf().prefix",
+      "            if not _ends_with_newline(last_node.get_last_leaf()) and not had_valid_suite_last:\n                p = last_node.get_next_leaf().prefix"))
+silent('diff2-operands-swapped-fresh-alias', ['C04'], 'the question is asked through a local bound after the removals, flag tested first',
+       (DIFF, "            if not _ends_with_newline(new_nodes[-1].get_last_leaf()) and not had_valid_suite_last:\n                p = new_nodes[-1].get_next_leaf().prefix",
+        "            final_node = new_nodes[-1]\n            if not had_valid_suite_last and not _ends_with_newline(final_node.get_last_leaf()):\n                p = final_node.get_next_leaf().prefix"))
 
 VARIANTS = [v for v in VARIANTS if v is not None]
